@@ -1,7 +1,7 @@
 # Native witness for the two recorded C07 findings: (a) S3 layout swallows a data entry named '_metadata'; (b) jsonpickle 0.9.3 drops
 # dict keys equal to its own tags ('py/object', 'py/tuple', ...).  argv[1] selects the case.  exit 0 = round trip exact, 1 = entry lost.
 import sys
-sys.path.insert(0, '/repo') if '/repo' not in sys.path else None
+sys.path.insert(0, __import__('os').environ.get('PYVC_REPO', '/repo'))
 sys.path.insert(0, '/verif/replay')
 case = sys.argv[1] if len(sys.argv) > 1 else 's3'
 if case == 's3':
